@@ -10,7 +10,7 @@ import (
 )
 
 func init() {
-	register("C01", "Lexing and parsing are total: (R1) lexer index safety — abstract interpretation of package lexer (Zone difference bounds x Karr affine equalities over the cursor cells, integer SSA values and string lengths, callees inlined) proves 0 <= index < len / 0 <= low <= high <= len for every index and slice expression on every path, from the invariant 0 <= start <= end <= len(Input) which every return of ReadToken re-establishes; (R2) every lexer loop advances a cursor or induction variable by at least one per iteration, and every token other than EOF consumes at least one byte; (R3) the parser's sticky error is written only where it is known to be nil; (R4) every parser loop has, on each of its cycles, an exit that is taken when an error is recorded; (R5) every iteration of every parser loop, and every callback of the repetition helpers, consumes a token or records an error (must-analysis with the kind of the look-ahead token as context); (R6) every recursion cycle of the parser passes a call that lies under the true result of a consuming predicate, or a re-entrancy latch — depth is bounded by consumed tokens; (R7) at every lexer error the reported line is >= 1 and the column >= 1. (R8) the line start is assigned after the whole line terminator, also through helpers (C04.R2).", runC01)
+	register("C01", "Lexing and parsing are total: (R1) lexer index safety — abstract interpretation of package lexer (Zone difference bounds x Karr affine equalities over the cursor cells, integer SSA values and string lengths, callees inlined) proves 0 <= index < len / 0 <= low <= high <= len for every index and slice expression on every path, from the invariant 0 <= start <= end <= len(Input) which every return of ReadToken re-establishes; (R2) every lexer loop advances a cursor or induction variable by at least one per iteration, and every token other than EOF consumes at least one byte; (R3) the parser's sticky error is written only where it is known to be nil; (R4) every parser loop has, on each of its cycles, an exit that is taken when an error is recorded; (R5) every iteration of every parser loop, and every callback of the repetition helpers, consumes a token or records an error (must-analysis with the kind of the look-ahead token as context); (R6) every recursion cycle of the parser passes a call that lies under the true result of a consuming predicate, or a re-entrancy latch — depth is bounded by consumed tokens; (R7) at every lexer error the reported line is >= 1 and the column >= 1. (R8) the line start is assigned after the whole line terminator, also through helpers (C04.R2). (R9) no entry point drops an error it has obtained; (R10) file, line and column of every syntax error come from one token position.", runC01)
 }
 
 // lexerEngine builds the engine for package lexer and runs it from ReadToken under the type invariant.
@@ -170,6 +170,10 @@ func runC01(c *Ctx) {
 	c01LoopsLeave(c, r4, m, f)
 	c01Progress(c, r5, m, f)
 	parserRecursion(c, r6, m)
+	r9 := c.Rule("R9", "no entry point drops an error it has obtained (a document with a nil error, or a non-nil error)", 4)
+	parserErrorsNotDropped(c, r9, m)
+	r10 := c.Rule("R10", "file, line and column of every syntax error come from one token position (C20.R5)", 2)
+	c20LocatedFromOnePosition(c, r10)
 }
 
 func eofKind(p *Program) int64 {
@@ -654,6 +658,11 @@ func (a *poe) edge(fn *ssa.Function, b *ssa.BasicBlock, st poeState, i int) (poe
 	cd := normCond(Cond{V: ifi.Cond, True: i == 0})
 	// the true result of a consuming predicate
 	if cd.True && a.f.isConsumePredResult(cd.V) {
+		st.prog = true
+		return st, true
+	}
+	// the true result of an error predicate: an error has been recorded
+	if cd.True && a.f.isErrPredResult(cd.V) {
 		st.prog = true
 		return st, true
 	}
